@@ -32,6 +32,7 @@ KIND_TAGS = {
     "charlist": ["charlist"],
     "varchars": VARCHARS,
     "newobj": ["new"],
+    "classobj": ["classobj:Class", "classobj:Token"],
     "varpre_small": ["", "Other", "str2", "other", "Empty", "Other|Alternation", "Empty|Other", "Other|other", "str2|Empty|Other",
                      "Assertion|str1"],
     "varpre": VARPRE,
